@@ -163,7 +163,7 @@ theorem stub_ok_iff_runtime_ok (N : Naming) (api : Api) (ns : Namespace) :
 /-- **C15, names.** For every API description, namespace and naming, the judged names the stub
 declares are the judged names the runtime module defines (same kinds, same names, same order): per
 struct / union its class and `<Class>_validator`, per alias `<fmt_class(alias)>_validator` and, for
-an alias of a struct or union, the raw alias name, per route its object (`judgedSpec`). No
+an alias of a struct or union, `fmt_class(alias)` itself, per route its object (`judgedSpec`). No
 hypothesis: both generators name the validator of an alias after `fmt_class(alias.name)`
 (regression example of D20 below). -/
 theorem stub_eq_runtime_names (N : Naming) (api : Api) (ns : Namespace) (ms mr : ModDecl)
@@ -269,14 +269,14 @@ def d20Ns : Namespace :=
 def d20Api : Api := ⟨[d20Ns]⟩
 
 /-- D20 repaired: stub and runtime module both say `As_validator` / `HttpCode_validator` /
-`HttpUnion_validator`; the class alias of a struct or union is bound under the RAW alias name on
-both sides (`HTTPUnion`, identical text `alias.name = class` in the two backends). -/
+`HttpUnion_validator`, and (D39 repaired) the class alias of a struct or union is bound under
+`fmt_class(alias.name)` on both sides (`HttpUnion = U`, the name its users refer to). -/
 example :
     aliasNamesStable pyNaming d20Ns = false ∧
     (stubNs pyNaming d20Api d20Ns).map judgedNames =
       .ok [(.cls, "U"), (.validator, "U_validator"),
            (.validator, "As_validator"), (.validator, "HttpCode_validator"), (.validator, "Plain_validator"),
-           (.validator, "HttpUnion_validator"), (.aliasName, "HTTPUnion")] ∧
+           (.validator, "HttpUnion_validator"), (.aliasName, "HttpUnion")] ∧
     (rtNs pyNaming d20Api d20Ns).map judgedNames = (stubNs pyNaming d20Api d20Ns).map judgedNames := by
   refine ⟨by decide, ?_, ?_⟩ <;> rfl
 
